@@ -170,6 +170,10 @@ func (s *Scanner) Length() uint {
 	for {
 		lex, ok := s.Next()
 		if !ok {
+			// Everything up to the end belongs to the schema: a user comment
+			// after the last value is counted here as it is when other text
+			// follows the schema.
+			length = uint(s.dataSize)
 			break
 		}
 
